@@ -10,9 +10,14 @@ MANIFEST = dict(
 RULE = 'histories with extreme SEIDs, absent/undecodable Node ID and F-SEID IEs, unknown message types, reports for dead sessions'
 
 GEN = dict(weights=dict(mod=24, dele=12, srr=10, usa=10, dld=8, otherreq=6, otherrsp=6, hb=8), big_seids=True)
-N_QUICK, N_THOROUGH = 120, 3000
+N_QUICK, N_THOROUGH = 90, 3000
 
 
 def run(ctx, replay=None):
+    from checks import fuzz_phase
     return pc.run_property(ctx, "C07", pc.mon_c07, GEN, N_QUICK, N_THOROUGH, replay=replay, rule=RULE,
-                           assumptions=[pc.PFCP_NOTE])
+                           assumptions=[pc.PFCP_NOTE, "byte-level stream: structure-aware mutations (every leaf IE x flag octet x "
+                                        "boundary value x tail length systematically, plus random ones) of valid messages, each with its "
+                                        "own sequence number, after a valid prefix, against the model data plane and against the REAL gtp5g "
+                                        "driver over the simulated kernel; validation, not proof"],
+                           extra_phase=fuzz_phase.phase)
